@@ -40,10 +40,19 @@ texts = st.one_of(
     st.builds(lambda p, r: p + r, st.sampled_from(["lyric ", "section "]), _joined),
     st.builds(lambda p, r: p + r, st.sampled_from(["lyric ", "section "]), _noquote),
     G.plain_text,
+    st.sampled_from(G.WRAPPED), st.sampled_from(["lyric ", "section ", ""]).flatmap(
+        lambda pre: st.sampled_from(G.WRAPPED).map(lambda w: pre + w)),
     # names with a meaning to the games (candidates for special treatment)
     st.sampled_from(["end", "end", "music_start", "music_end", "phrase_start", "phrase_end", "coda", "idle", "play",
                      "crowd_lighters_fast", "section end", "lyric end", "End", "the end", "solo", "soloend",
                      "Default", "section Intro", "lyric +"]),
+    # a remainder that itself contains what opens an event of the OTHER (or the same) kind: the quote
+    # followed by a keyword, a whole nested event, the line's own delimiters
+    st.builds(lambda pre, a, q, kw, b, c: pre + a + q + kw + b + c,
+              st.sampled_from(["lyric ", "section "]), st.sampled_from(["", "the ", "a = E ", "7 = E ", "x "]),
+              st.sampled_from(['"', '"', ' "', '= E "', '0 = E "']),
+              st.sampled_from(["lyric ", "section ", "lyric", "section", "lyric  ", "section\t"]),
+              st.sampled_from(["", "video", "Solo 1", "x y", "é"]), st.sampled_from(["", '"', '" part', ' "', '""'])),
     st.sampled_from(["lyric ", "section ", "lyric", "section", "", " ", '"', '""', "lyric \"", 'a" ',
                      'lyric a" ', "section lyric x", "lyric section x", " lyric x"]),
 )
